@@ -110,7 +110,16 @@ def install(E):
     M["builtins.float"] = b_float
 
     def b_round(ctx, args, kw):
-        # only used in logging arguments; result unconstrained
+        if len(args) == 1 and not kw:
+            v = E.num(ctx.force(args[0]))
+            if isinstance(v, VInt):
+                return v
+            if isinstance(v, VReal):
+                # round(x) is an integer within 1/2 of x (ties to even: either neighbour is admitted here)
+                n = ctx.fresh_int("round")
+                ctx.assume(z3.And(z3.ToReal(n) - v.z <= z3.RealVal("1/2"), v.z - z3.ToReal(n) <= z3.RealVal("1/2")))
+                return VInt(n)
+        # round(x, ndigits): result unconstrained
         return VReal(ctx.fresh_real("round"))
     M["builtins.round"] = b_round
 
